@@ -23,7 +23,7 @@ from molgri.space.fullgrid import FullGrid
 PROPERTY = "C20"
 
 LEGENDS = ["Potential", "LJ (SR):M1-M2", "LJ (SR)", "Box-XX", "Box-X", "Disper. corr.", "a b  c", "#x", "s1", "Coulomb (SR)", "Pres. DC (bar)", "Pressure",
-           "Constr. rmsd", "Kinetic En.", "Temperature", "Coul-SR:SOL -SOL ", " Potential"]
+           "Constr. rmsd", "Kinetic En.", "Temperature", "Coul-SR:SOL -SOL ", " Potential", "Vir-XX, corr.", "legend s2", "@ s3"]
 AT_LINES = ['@    title "GROMACS Energies"', '@    xaxis  label "Time (ps)"', '@    yaxis  label "(kJ/mol)"', "@TYPE xy",
             "@ view 0.15, 0.15, 0.75, 0.85", "@ legend on", "@ legend box on", "@ legend loctype view",
             "@ legend 0.78, 0.8", "@ legend length 2"]
